@@ -45,7 +45,7 @@ func init() {
 		Technique: "static analysis: symbolic (linear) offsets/lengths over SSA with parameter substitution through helpers, value provenance of the XOR key, lockset + content-use census of the shared buffers, edge-guard reachability of returns (go/ssa)",
 		Explanation: "R1 spec shape: in Obfuscate and Deobfuscate every XOR store combines plaintext byte j with key[j mod 32] and wire byte j+8; the key is the by-value result of blake2b.Sum256 (the only blake2b entry point used) over the whole key-input buffer, whose tail at offset len(PSK) is overwritten, in the same function, with exactly the 8 bytes at wire offset 0; the constructor sizes that buffer len(PSK)+8 and copies the PSK (a copy of the caller's key) to offset 0 before the object is handed out (composite literal or field-wise construction); the methods return 0 or len(in)+8 / len(in)-8. " +
 			"R2 shared buffer: the hash and the salt copy run in one critical section of the obfuscator's mutex, every use of the key-input buffer's contents holds it, and the key leaves the critical section by value (its origin is never receiver-owned storage). " +
-			"R3 wrapper: WriteTo obfuscates p into the write buffer and sends exactly writeBuf[:nn] to the caller's address inside one critical section, returning len(p) (0 only on the error edge); ReadFrom deobfuscates readBuf[:n] of the inner read into p inside one critical section and every return is reachable only over `deobfuscated n > 0`, `err != nil` or (for the raw count) `n <= 0` – otherwise it loops; both buffers' contents are used only under their mutex; the inner calls, counts and guards are followed into obfs helpers of ReadFrom/WriteTo (per helper return, including boolean retry flags). " +
+			"R3 wrapper: WriteTo obfuscates p into the write buffer and sends exactly writeBuf[:nn] to the caller's address inside one critical section, returning len(p) (0 only on the error edge); ReadFrom receives the wire datagram (payload + 8 salt bytes) into storage of its own, never into the caller's buffer p or a slice of it (p is sized for the payload: a read into p truncates every datagram with len(payload) <= len(p) < len(payload)+8), and deobfuscates readBuf[:n] of the inner read into p inside one critical section and every return is reachable only over `deobfuscated n > 0`, `err != nil` or (for the raw count) `n <= 0` – otherwise it loops; both buffers' contents are used only under their mutex; the inner calls, counts and guards are followed into obfs helpers of ReadFrom/WriteTo (per helper return, including boolean retry flags). " +
 			"R4 short keys: the constructor returns an obfuscator only over the edge len(psk) >= 4 (exactly) and a non-nil error otherwise; every caller chain (WrapPacketConnSalamander, WrapPacketConnGecko, app wrapObfs) uses the result only on the err == nil edge.",
 		NotDecided: []string{
 			"actual wire bytes for all keys/salts and interoperability with other implementations (needs execution against an independent BLAKE2b)",
@@ -760,6 +760,10 @@ const c13r1 = "C13.R1 wire format: 8 salt bytes, then payload byte j XOR key[j m
 const c13r2 = "C13.R2 the shared key-input buffer is hashed and refilled only inside one critical section of the obfuscator's mutex and the key leaves it by value"
 const c13r3 = "C13.R3 the socket wrapper reports the original packet's byte count, sends/deobfuscates exactly the obfuscated bytes under its buffer mutex, and re-reads instead of surfacing a rejected packet"
 const c13r4 = "C13.R4 keys shorter than 4 bytes are refused and the refusal reaches every caller"
+
+// the wire datagram is 8 salt bytes longer than the payload the caller sized
+// its buffer for, so the receive buffer must not be (a slice of) the caller's
+const c13r3buf = "C13.R3 the wrapper's ReadFrom receives the wire datagram (payload + 8 salt bytes) into storage of its own, never into the caller's buffer p or a slice of it: p is sized for the payload, so a read into p truncates every datagram with len(payload) <= len(p) < len(payload)+8"
 
 // keyOrigin follows the storage the XOR key byte is read from back to the
 // value it holds.  kind: "hash" (direct result of a blake2b call, val = the
@@ -1757,6 +1761,16 @@ func (s *c13state) wrapperRead() {
 	c.Saw(fnName(deob.Parent()))
 	innerN, errv := extractOf(inner, 0), extractOf(inner, 2)
 	rb := ie.locOfSlice(inner.Call.Args[0])
+	// the storage the wire datagram is received into: never the caller's p (the
+	// argument is followed through locals, re-slicings and helper parameters up
+	// to the wrapper method's own []byte parameter)
+	callerBuf := rb.isParam(pP)
+	c.Req(!callerBuf, "C13.R3:ReadFrom:buffer", c13r3buf, p.InstrPos(inner),
+		fmt.Sprintf("the inner %s in %s receives the wire datagram (payload + %d salt bytes) straight into the caller's buffer %s (offset %s): a caller buffer with len(payload) <= len(%s) < len(payload)+%d makes the socket truncate the datagram, and ReadFrom returns a cut payload with a nil error",
+			inner.Call.Method.Name(), fnName(inner.Parent()), c13saltLen, pP.Name(), rb.off, pP.Name(), c13saltLen))
+	if callerBuf {
+		return
+	}
 	if rb.root.kind != "field" || rb.root.v != ssa.Value(recv) || innerN == nil {
 		c.Undecided("C13.R3:ReadFrom:input", c13r3, p.InstrPos(inner), "the inner read does not fill a buffer field of the wrapper (shape not recognised)")
 		return
@@ -1765,8 +1779,27 @@ func (s *c13state) wrapperRead() {
 	in0 := de.locOfSlice(deob.Call.Args[0])
 	io, ioC := in0.off.isConst()
 	ro, roC := rb.off.isConst()
-	a1, _ := de.subst(deob.Call.Args[1])
-	good := in0.isField(recv, fRB) && ioC && roC && io == ro && de.lenOf(deob.Call.Args[0]).equal(c13term(c13key{kind: "val", v: innerN})) && a1 == ssa.Value(pP)
+	// the output is the whole of the caller's p (p itself or a full re-slicing)
+	out := de.locOfSlice(deob.Call.Args[1])
+	oo, ooC := out.off.isConst()
+	outP := out.isParam(pP) && ooC && oo == 0 && de.lenOf(deob.Call.Args[1]).equal(c13term(c13key{kind: "len", v: pP}))
+	// the input's length is the inner read's count, possibly handed back by the
+	// obfs helper that performs the read (every return of the helper)
+	lenIsN := de.lenOf(deob.Call.Args[0]).equal(c13term(c13key{kind: "val", v: innerN}))
+	if sv, se := de.subst(deob.Call.Args[0]); !lenIsN {
+		if sl, ok := sv.(*ssa.Slice); ok && sl.High != nil && (sl.Low == nil || isConstInt(sl.Low, 0)) {
+			nLeaf, nOther := 0, 0
+			a.leaves(se, sl.High, nil, map[ssa.Value]bool{}, 0, func(v ssa.Value, _ *c13env, _ []c13site) {
+				if v == innerN {
+					nLeaf++
+				} else {
+					nOther++
+				}
+			})
+			lenIsN = nLeaf > 0 && nOther == 0
+		}
+	}
+	good := in0.isField(recv, fRB) && ioC && roC && io == ro && lenIsN && outP
 	c.Req(good, "C13.R3:ReadFrom:input", c13r3, p.InstrPos(deob),
 		fmt.Sprintf("Deobfuscate must get %s[:n] of the inner read and the caller's p; it gets %s.%s[%s:+%s]", fRB.Name(), in0.root.kind, c13fieldName(in0.root.f), in0.off, de.lenOf(deob.Call.Args[0])))
 	li, ld := c13lift(inner, ie, deob, de)
